@@ -23,7 +23,7 @@ import math
 from fractions import Fraction
 
 from ..core import LEAN, REPO, Prop, Violation, hexs, import_repo, show_bool, show_rat, unhexs, write_if_changed
-from ..extract import quorum_consts
+from ..extract import quorum_consts, quorum_tables
 
 STRATS = ["majority", "supermajority", "unanimous", "weighted", "confidence", "bayesian", "threshold"]
 ACTION = {"P": "PERMIT", "E": "EXECUTE", "B": "BLOCK", "D": "DEFER"}
@@ -236,7 +236,7 @@ class C06(Prop):
     fixed_prefix = 1
     quick_budget = 3000
     thorough_budget = 50000
-    extractors = ["E5-quorum"]
+    extractors = ["E5-quorum", "E5-quorum-tables"]
     all_branches = (["gate"] + [f"{s}:{o}" for s in STRATS for o in ("permit", "block")] + ["threshold:raise"]
                     + ["real:gate"] + [f"real:{s}:{o}" for s in STRATS for o in ("permit", "block")] + ["skip"])
     _assumptions = [
@@ -268,7 +268,11 @@ class C06(Prop):
         self.ATP = ATP_Store
 
     def extract(self, ctx):
-        return [quorum_consts.run(REPO, LEAN, write_if_changed, self.m)]
+        facts = {}
+        consts = quorum_consts.run(REPO, LEAN, write_if_changed, self.m, facts)
+        # decision tables obtained by evaluating the real code through its public API (nothing is parsed)
+        tables = quorum_tables.run(REPO, LEAN, write_if_changed, self.m, facts)
+        return [consts, tables]
 
     # --- case construction -----------------------------------------------------------------------------------
     @staticmethod
